@@ -116,6 +116,10 @@ var corpus = []variant{
 	{"C05-padding-only-below-one-record", "C05", "C05.tape-padding-modulo-record", []edit{{"internal/tarext/write.go", "", "				if rest := counter.BytesRead % (config.MagneticTapeBlockSize * recordSize); rest > 0 {\n", "				if rest := counter.BytesRead; config.MagneticTapeBlockSize*recordSize-rest > 0 {\n"}}},
 	{"C13-limit-inside-like-statement", "C13", "C13.limit-after-filter", []edit{{"pkg/persisters/metadata.go", "func (p *MetadataPersister) GetHeaderDirectChildren(", "		if err := queries.Raw(\n			query,\n			prefix,\n			prefix,\n			prefix+\"%\",\n			rootDepth,\n			rootDepth+1,\n		).Bind(", "		if err := queries.Raw(\n			query+`limit ?`,\n			prefix,\n			prefix,\n			prefix+\"%\",\n			rootDepth,\n			rootDepth+1,\n			limit+1,\n		).Bind("}}},
 	{"C06-cut-member-reads-as-empty", "C06", "C06.missing-member-is-an-error", []edit{{"pkg/recovery/fetch.go", "", "		if err == io.EOF {\n			return io.ErrUnexpectedEOF\n		}\n\n", ""}}},
+	{"C01-size-zeroed-behind-snapshot-without-record", "C01", "C01.snapshot-window", []edit{
+		{"pkg/operations/update.go", "", "			hdr.PAXRecords[records.STFSRecordUncompressedSize] = strconv.Itoa(int(hdr.Size))\n			hdr.Size = 0 // Don't try to seek after the record\n", "			hdrToAppend := *hdr\n			hdrs = append(hdrs, &hdrToAppend)\n"},
+		{"pkg/operations/update.go", "hdr.PAXRecords[records.STFSRecordReplacesContent] = records.STFSRecordReplacesContentFalse", "			hdrToAppend := *hdr\n			hdrs = append(hdrs, &hdrToAppend)\n\n			if err := signature.SignHeader(", "			hdr.Size = 0\n\n			if err := signature.SignHeader("},
+	}},
 	{"C17-metadata-update-zeroes-size", "C17", "C17.metadata-update-keeps-size", []edit{{"pkg/operations/update.go", "", "			hdr.PAXRecords[records.STFSRecordUncompressedSize] = strconv.Itoa(int(hdr.Size))\n			hdr.Size = 0 // Don't try to seek after the record\n", "			hdr.Size = 0 // Don't try to seek after the record\n"}}},
 	{"C14-truncate-empties-before-growing", "C14", "C14.truncate-preserves-content", []edit{{"pkg/fs/file.go", "func (f *File) Truncate(", "	if err := f.writeBuf.Truncate(size); err != nil {\n", "	if err := f.writeBuf.Truncate(0); err != nil {\n"}}},
 	{"C14-truncation-only-on-first-write", "C14", "C14.truncate-at-open", []edit{{"pkg/fs/filesystem.go", "func (f *STFS) OpenFile(", "	if flags.Truncate && flags.Write && hdr.Typeflag != tar.TypeDir && hdr.Size > 0 {\n		if err := file.enterWriteMode(); err != nil {\n			return nil, err\n		}\n	}\n", ""}}},
